@@ -42,7 +42,9 @@ GAMMA_LIB = [
 def programs(draw):
     n_ax = draw(st.integers(0, 2))
     axioms = [draw(st.sampled_from(GAMMA_LIB)) for _ in range(n_ax)]
-    g, c, p, tags = streams.draw_program(draw, CFG, axioms, max_steps=12, reject_rate=4)
+    # a third of the gadgets may end the program with a step the *documented* machine rejects: those are exactly the
+    # programs an unsound checker would accept, so they must be frequent (the proved terms left on the stack are judged)
+    g, c, p, tags = streams.draw_program(draw, CFG, axioms, max_steps=12, reject_rate=15)
     seeds = [draw(st.integers(0, 2 ** 40)) for _ in range(2)]
     return {'g': g.hex(), 'c': c.hex(), 'p': p.hex(), 'tags': tags, 'model_seed': seeds}
 
